@@ -22,7 +22,7 @@ use vmon::{an, au, big, gen, mon::short_file, rng::Rng, uint, Arg, Mon, Panic};
 compile_error!("harness: the C20 byte-order expectations are written for little-endian targets");
 
 vmon::widths!(exec; 0, 1, 2, 7, 8, 16, 31, 32, 63, 64, 65, 100, 127, 128, 129, 192, 250, 255, 256, 257,
-    384, 512);
+    384, 512, 4160);
 
 thread_local! {
     /// Distinct facade entry points (`kind`s) compared so far (reported as a note).
@@ -1104,8 +1104,12 @@ fn workload(m: &mut Mon, bits: usize) {
         24000
     } else if !wide {
         18000
-    } else {
+    } else if bits <= 2048 {
         9000
+    } else {
+        // more than 64 limbs (a per-limb bit mask no longer fits one word): the facades are compared at this
+        // width class too, with a smaller random budget because gcd/pow/root cases cost milliseconds here
+        1200
     };
     let iters = m.iters(base);
     for i in 0..iters {
